@@ -586,6 +586,19 @@ def agent_burst_cluster(cid, copies=16, idle=2, delay=200, timeout=1000):
             "requests": [http_req(0, host="e.example.com"), r1, r2]}
 
 
+def empty_404_cluster(cid, agent, n=40):
+    """finding T2: the upstream answers 404 with an EMPTY streamed (chunked) body - the status gin's no-route machinery starts
+    from; nothing may be appended. The defect was a race (4-10 % of such requests), hence many of them"""
+    nodes = [{"id": "n0", "upstreams": [up("u1", "e")], "view": []}, {"id": "n1", "upstreams": [], "view": []}]
+    truth_views(nodes)
+    r = mk_resp(404, body={"len": 0, "seed": 1}, chunked=True)
+    c = {"id": cid, "timeout_ms": NORMAL_TIMEOUT_MS, "kind": "consistent", "nodes": nodes,
+         "requests": [http_req(i % 2, host="e.example.com", resp=copy.deepcopy(r)) for i in range(n)]}
+    if agent:
+        c["via_agent"] = True
+    return c
+
+
 def gen_cluster(rng, cid, profile):
     if rng.random() < profile.get("p_dynamic", 0.0):
         return gen_dynamic_cluster(rng, cid)
@@ -1073,8 +1086,42 @@ def case_to_coq(cl, co):
     return "(mkPC %s %s)" % (coq_list(nodes), coq_list(reqs))
 
 
+def dyn_case_to_coq(cl, co):
+    """a dynamic cluster as ONE model history (Proxy/Dynamic.v): the registry ops are told, what the proxies themselves do to the
+    registry (deregistering a go-away upstream at its first dial) is not - the model has to predict it.
+    returns (text, [original request index of every item])"""
+    gone0, nodes = [], []
+    MB = {"gone": "answer", "dialfail_once": "dialfail"}
+    for i, n in enumerate(cl["nodes"]):
+        ups = []
+        for u_ in n["upstreams"]:
+            if u_["beh"] == "gone":
+                gone0.append(U(u_["id"]))
+            ups.append(c_upstream(dict(u_, beh=MB.get(u_["beh"], u_["beh"]))))
+        nodes.append("(mkPN %s %s %d%%Z %s %s)" % (cs(n["id"]), cs("node:%d" % i), cl["timeout_ms"], coq_list(ups),
+                                                 coq_list([c_ventry(v) for v in dedup_view(n["view"])])))
+    reg = {i: {u_["id"]: u_["ep"] for u_ in n["upstreams"]} for i, n in enumerate(cl["nodes"])}
+    items, idx = [], []
+    for ri, (rq, ob) in enumerate(zip(cl["requests"], co["requests"])):
+        if rq["kind"] == "connect":
+            u_ = rq["up"]
+            assert u_["beh"] in ("answer", "dialfail", "reset")
+            reg[rq["entry"]][u_["id"]] = u_["ep"]
+            items.append("(DOp (DConnect %d%%nat %s))" % (rq["entry"], c_upstream(u_))); idx.append(ri)
+        elif rq["kind"] == "disconnect":
+            ep = reg[rq["entry"]].pop(rq["up_id"], H(""))
+            items.append("(DOp (DDisconnect %d%%nat %s %s))" % (rq["entry"], cs(U(ep)), cs(U(rq["up_id"])))); idx.append(ri)
+        else:
+            items.append("(DReq (mkPQ %d%%nat %s %s) %s)" % (rq["entry"], model_request(rq, ob["key"]), c_resp(rq), c_obs(rq, ob))); idx.append(ri)
+            for a in rq.get("_after") or []:
+                if a[0] == "beh":       # environment: the listener recovers (remove = the proxy's own doing: not told)
+                    b = {"answer": "(UAnswer 0%Z)", "dialfail": "UDialFail", "reset": "UReset"}[a[3]]
+                    items.append("(DOp (DSetBeh %s %s))" % (cs(a[2]), b)); idx.append(ri)
+    return "(mkDC %s %s %s)" % (coq_list(nodes), coq_list([cs(g) for g in gone0]), coq_list(items)), idx
+
+
 PRELUDE = ["From Coq Require Import List String NArith ZArith Bool.",
-           "From Piko Require Import Base.Maps Base.Strs Proxy.Endpoint Proxy.Http Proxy.Route Run.Run_Proxy.",
+           "From Piko Require Import Base.Maps Base.Strs Proxy.Endpoint Proxy.Http Proxy.Route Proxy.Dynamic Run.Run_Proxy Run.Run_ProxyDyn.",
            "Import ListNotations. Open Scope string_scope. Open Scope list_scope."]
 
 CODE_NAMES = {1: "status/stamp", 2: "invocation-counts", 3: "upstream-request-line/host/body", 4: "upstream-request-headers", 5: "client-response"}
@@ -1095,9 +1142,11 @@ def correspondence(pid, wd, clusters, outs, shard=16, tag="px"):
     """model vs implementation inside Coq; returns [{case, req, codes, names}]"""
     # clusters whose upstreams sit behind a real agent reverse proxy are monitor-only: the model has no third hop
     ok = [((i, ris), pc, po) for i, (c, o) in enumerate(zip(clusters, outs))
-          if not o.get("panic") and len(o["requests"]) == len(c["requests"]) and not c.get("via_agent")
+          if not o.get("panic") and len(o["requests"]) == len(c["requests"]) and not c.get("via_agent") and not c.get("dynamic") and not c.get("auth")
           for pc, po, ris in phases(c, o)]
     jobs = [ok[i:i + shard] for i in range(0, len(ok), shard)]
+    dyn = [(i, c, o) for i, (c, o) in enumerate(zip(clusters, outs))
+           if c.get("dynamic") and not c.get("auth") and not o.get("panic") and len(o["requests"]) == len(c["requests"])]
 
     def work(arg):
         ji, job = arg
@@ -1115,9 +1164,29 @@ def correspondence(pid, wd, clusters, outs, shard=16, tag="px"):
             res.append((ci, kept[r] if r < len(kept) else ris[-1], codes))
         return res
 
+    def dwork(arg):
+        ji, job = arg
+        maps = []
+
+        def build():
+            parts = []
+            for _, c, o in job:
+                t, idx = dyn_case_to_coq(c, o)
+                parts.append(t); maps.append(idx)
+            return ";\n".join(parts)
+        defs, txt = with_table(build)
+        body = PRELUDE + defs + ["Definition cases : list dcase := [", txt, "].",
+                                 "Definition M := Eval vm_compute in dyn_mismatches cases.", "Print M."]
+        rc, out = coq_eval(wd, "Cases_%s_%s_dyn%d" % (pid, tag, ji), "\n".join(body) + "\n")
+        mm = parse_m(out)
+        if rc != 0 or mm is None:
+            raise RuntimeError("coq evaluation of dynamic proxy cases failed:\n" + out[-3000:])
+        return [(job[c][0], maps[c][r] if r < len(maps[c]) else 0, codes) for c, r, codes in mm]
+
+    djobs = [dyn[i:i + shard] for i in range(0, len(dyn), shard)]
     dis = []
     with cf.ThreadPoolExecutor(max_workers=8) as ex:
-        for res in ex.map(work, list(enumerate(jobs))):
+        for res in list(ex.map(work, list(enumerate(jobs)))) + list(ex.map(dwork, list(enumerate(djobs)))):
             for ci, ri, codes in res:
                 dis.append({"case": ci, "req": ri, "codes": codes, "names": [CODE_NAMES.get(x, str(x)) for x in codes]})
     return dis
@@ -1227,7 +1296,8 @@ def run_property(ctx, pid, nclusters_quick, nhosts):
     nclusters = nclusters_quick if tier == "quick" else nclusters_quick * 15
     profile = PROFILES[pid]
     clusters = corpus() + [gen_dynamic_cluster(random.Random(7 + k), "corpus-dyn-" + sc, sc) for k, sc in enumerate(["reconnect", "twins", "goaway", "flaky"])] \
-        + ([agent_burst_cluster("corpus-agent-burst")] if pid == "C08" else []) \
+        + ([agent_burst_cluster("corpus-agent-burst"), empty_404_cluster("corpus-empty-404", False), empty_404_cluster("corpus-empty-404-b", False),
+            empty_404_cluster("corpus-empty-404-agent", True)] if pid == "C08" else []) \
         + [gen_cluster(rng, "g%d" % i, profile) for i in range(nclusters)]
     hosts = gen_hosts(rng, nhosts if tier == "quick" else nhosts * 10)
     for hp in ["e.example.com", "e.example.com:8000", "1.2.3.4", "[::1]:80", "localhost", "", "e.example.com.", "a.b:c:d", "[e.x]:80", "[::ffff:1.2.3.4]"]:
@@ -1241,6 +1311,25 @@ def run_property(ctx, pid, nclusters_quick, nhosts):
     kf = [k for k in known_findings() if k["kind"] == "known" and k["property"] == pid]
 
     mon_fail = run_monitor(pid, clusters, outs)
+    # proxy ports that verify tokens (monitor only): an authorised request is served from whichever node it enters - the token
+    # survives the inter-node hop - and only by an upstream of the endpoint the token was checked for
+    tclusters = [gen_token_cluster(random.Random(ctx["seed"] * 131 + i), "tok%d" % i) for i in range(3 if tier == "quick" else 30)]
+    touts = run_clusters(binary, ctx["wd"], tclusters, tag="tok")["clusters"]
+    for cl, co in zip(tclusters, touts):
+        bad = None
+        if co.get("panic"):
+            bad = (len(co.get("requests") or []), fail("panic", "harness panic/watchdog: " + co["panic"]))
+        else:
+            for ri, (rq, ob) in enumerate(zip(cl["requests"], co["requests"])):
+                f = monitor_token_path(cl, ri, rq, ob)
+                if f:
+                    bad = (ri, f)
+                    break
+        if bad:
+            ri, f = bad
+            violations.append({"what": "%s monitor, authenticated proxy ports [%s]: %s (cluster %s, request %d)" % (pid, f["sig"], f["why"], cl["id"], ri), "found_input": True,
+                               "replay_obj": {"property": pid, "kind": "token-path", "signature": f["sig"], "why": f["why"], "cluster": dict(cl, requests=cl["requests"][:ri + 1])}})
+            break
     t0 = time.time()
     dis = correspondence(pid, ctx["wd"], clusters, outs)
     bad_hosts = host_correspondence(pid, ctx["wd"], hosts, out["hosts"])
@@ -1359,6 +1448,12 @@ def replay_property(pid, path, wd):
         bad = host_correspondence(pid, wd, hosts, out["hosts"], tag="replay")
         print(json.dumps({"hosts": hosts, "implementation": [U(x) for x in out["hosts"]], "model_disagrees_at": bad}, indent=1))
         return 0
+    if obj.get("kind") == "token-path":
+        cl = obj["cluster"]
+        co = run_clusters(binary, wd, [cl], tag="replay")["clusters"][0]
+        print(json.dumps({"monitor": [{"request": ri, **f} for ri, (rq, ob) in enumerate(zip(cl["requests"], co.get("requests") or []))
+                                      for f in [monitor_token_path(cl, ri, rq, ob)] if f], "panic": co.get("panic")}, indent=1))
+        return 0
     case = obj["case"]
     out = run_clusters(binary, wd, [case], tag="replay")["clusters"]
     mf = run_monitor(pid, [case], out)
@@ -1366,3 +1461,62 @@ def replay_property(pid, path, wd):
     dis = correspondence(pid, wd, [case], out, tag="replay")
     print("model disagreements:", dis)
     return 0
+
+
+# ---------------------------------------------------------------- C10 on the real data path: tokens confined to their endpoints
+def gen_token_cluster(rng, cid):
+    """proxy ports that verify tokens; endpoint ids that a URL / host parser would fold together (t, t:80, T, t:, t.) registered
+    side by side on one or two nodes; every request names one of them in x-piko-endpoint and carries a token that lists one or
+    two of them (or none: any endpoint)"""
+    t = rng.choice(["t", "svc", "e"])
+    twins = [t, t + ":80", t.upper(), t + ":", t + ".", "x" + t]
+    rng.shuffle(twins)
+    twins = twins[:rng.randint(2, 5)]
+    nn = rng.randint(1, 2)
+    nodes = [{"id": "n%d" % i, "upstreams": [], "view": []} for i in range(nn)]
+    for k, tw in enumerate(twins):
+        nodes[rng.randrange(nn)]["upstreams"].append(up("u%d" % k, tw))
+    truth_views(nodes)
+    reqs = []
+    for _ in range(rng.randint(8, 14)):
+        a = rng.choice(twins)
+        r = rng.random()
+        rq = hdr_req(rng.randrange(nn), a, rng)
+        if r < 0.45:
+            rq["token_eps"] = [H(a)] + ([H(rng.choice(twins))] if rng.random() < 0.3 else [])
+        elif r < 0.8:
+            rq["token_eps"] = [H(x) for x in rng.sample([x for x in twins if x != a], min(len(twins) - 1, rng.randint(1, 2)))]
+        elif r < 0.9:
+            rq["token_eps"] = []
+        else:
+            rq["no_token"] = True
+        if rng.random() < 0.4:
+            rq["xauth"] = True      # token in x-piko-authorization, the client's own credentials for the upstream in Authorization
+        reqs.append(rq)
+    return {"id": cid, "timeout_ms": NORMAL_TIMEOUT_MS, "kind": "adversarial", "auth": True, "nodes": nodes, "requests": reqs}
+
+
+def monitor_token_path(cl, ri, rq, ob):
+    ep = addressed(rq)
+    if rq.get("no_token"):
+        if ob["status"] != 401 or ob.get("stamped"):
+            return fail("no-token", "request without a token on an authenticated proxy port was answered %d%s" % (ob["status"], " by an upstream" if ob.get("stamped") else ""))
+        return None
+    allowed = [U(x) for x in rq.get("token_eps") or []]
+    if allowed and ep not in allowed:
+        if ob["status"] != 401 or ob.get("stamped"):
+            return fail("token-escape", "token lists endpoints %r, the request named %r and was answered %d%s"
+                        % (allowed, ep, ob["status"], " by an upstream of %r" % U(ob["stamp_ep"]) if ob.get("stamped") else ""))
+        return None
+    if ob.get("stamped") and rq.get("xauth") and ob.get("up_reqs"):
+        got = [U(v) for nme, v in ob["up_reqs"][0]["headers"] if nme.lower() == "authorization"]
+        if got != ["Basic dXNlcjpwYXNz"]:
+            return fail("client-credentials-lost", "the client's own Authorization header reached the upstream as %r" % got)
+    if ob.get("stamped"):
+        se = U(ob["stamp_ep"])
+        if se != ep:
+            return fail("checked-not-routed", "the token was checked for endpoint %r (it lists %r) but the request was delivered to an upstream of %r"
+                        % (ep, allowed or "any", se))
+    elif ob["status"] == 401:
+        return fail("token-refused", "token lists %r, request named %r, answered 401" % (allowed or "any", ep))
+    return None
